@@ -81,6 +81,31 @@ def rule_d_set(ctx):
                 if p is not None and p.root == c.dest["local"]:
                     src_ok = True
             if not src_ok:
+                # the same adapter written as a match: `match map_call { None => true, Some(_) => false }` (is_none) or the reverse
+                from rules_typestate import option_test_edges, N as N_, S as S_
+                dl = c.dest["local"]
+                edges = option_test_edges(ctx, b, lambda p, dl=dl: p.root == dl and not p.fields(), ignore_debug=False)
+                want = {N_: 1, S_: 0} if adapter == "is_none" else {N_: 0, S_: 1}
+                rl = b.ret_locals()
+                vals = {}
+                for (x, s_), v in edges.items():
+                    region = {y for y in b.reachable() if y == s_ or s_ in b.dom().get(y, set())} if b.preds(s_, True) == [x] else set()
+                    for loc2, st2 in b.all_assigns():
+                        if loc2.bb in region and st2["place"]["local"] in rl and not st2["place"]["proj"] and st2["rv"]["k"] == "use" \
+                                and st2["rv"]["op"]["k"] == "const" and "val" in st2["rv"]["op"]:
+                            vals.setdefault(v, set()).add(st2["rv"]["op"]["val"])
+                # every value that reaches the return place is one of those constants
+                other = False
+                for rb in b.return_blocks():
+                    for d in b.defs_reaching(Loc(rb, len(b.stmts(rb))), 0):
+                        if d[3] == "assign" and d[4]["rv"]["k"] == "use" and d[4]["rv"]["op"]["k"] == "const":
+                            continue
+                        if d[3] == "assign" and d[4]["rv"]["k"] == "use" and d[4]["rv"]["op"]["k"] in ("copy", "move") \
+                                and not d[4]["rv"]["op"]["place"]["proj"] and d[4]["rv"]["op"]["place"]["local"] in rl:
+                            continue
+                        other = True
+                src_ok = not other and vals.get(N_) == {want[N_]} and vals.get(S_) == {want[S_]}
+            if not src_ok:
                 ok = False
                 why.append("result is not `%s()` of the map call's result" % adapter)
         R.inst(fn=b.path, delegates_to=c.tname, verdict="ok" if ok else "VIOLATION")
@@ -88,4 +113,57 @@ def rule_d_set(ctx):
             R.viol(key, c.where(), "%s does not delegate faithfully to %s: %s" % (b.path, c.tname, "; ".join(why)))
     if found < 20:
         R.anchor("methods", "expected >= 20 delegating HashSet methods, found %d" % found)
+    return R
+
+
+# ---------------------------------------------------------------------------
+# D-ext: bulk insertion is repeated insert
+# ---------------------------------------------------------------------------
+def rule_d_ext(ctx):
+    R = RuleResult("D-ext", "extend / from_iter of maps and sets are `insert` applied to every element (after an up-front reserve): their bodies and closures "
+                   "reach the raw table only through the public insert / reserve / constructors or another bulk insertion, never by looking up, erasing or "
+                   "inserting raw entries themselves — so a key that is already present keeps its stored key whichever table it lives in")
+    from rules_cost import api_name
+    from rules_handle import s_method, _adds_or_removes
+    T = ctx.facts.types
+    ar = _adds_or_removes(ctx)
+    ALLOWED = {"HashMap::insert", "HashSet::insert", "HashMap::reserve", "HashSet::reserve", "HashMap::is_empty", "HashSet::is_empty", "HashMap::len",
+               "HashSet::len", "HashMap::with_capacity_and_hasher", "HashSet::with_capacity_and_hasher", "HashMap::with_hasher", "HashSet::with_hasher",
+               "HashMap::default", "HashSet::default"}
+    n = 0
+    for b in ctx.facts.bodies.values():
+        if b.kind == "Closure" or "self_ty" not in b.raw:
+            continue
+        tr = b.raw.get("trait") or ""
+        if not ((tr == "core::iter::Extend" and b.name == "extend") or (tr == "core::iter::FromIterator" and b.name == "from_iter")):
+            continue
+        if T[b.raw["self_ty"]].get("adt") not in ctx.roles.holders and not any(T[b.raw["self_ty"]].get("adt") == h for h in ("griddle::set::HashSet",)) \
+                and "HashSet" not in T[b.raw["self_ty"]]["s"]:
+            continue
+        n += 1
+        bad = []
+        feeds = False
+        for bd in [b] + ctx.facts.closures_of(b):
+            for c in ctx.calls(bd):
+                if bd.is_cleanup(c.loc.bb):
+                    continue
+                lc = c.local_callee()
+                if lc is None or lc.kind == "Closure":
+                    continue
+                an = api_name(lc.path)
+                ltr = lc.raw.get("trait") or ""
+                if an in ("HashMap::insert", "HashSet::insert") or (ltr in ("core::iter::Extend", "core::iter::FromIterator")):
+                    feeds = True
+                    continue
+                if an in ALLOWED or ltr == "core::default::Default":
+                    continue
+                if s_method(ctx, c) is not None or lc.path in ar:
+                    bad.append("%s @ %s" % (c.tname, c.where()))
+        R.inst(fn=b.path, feeds_insert=feeds, verdict="ok" if (feeds and not bad) else "VIOLATION")
+        if bad:
+            R.viol("%s:raw" % b.path, b.where(Loc(0, 0)), "%s works on the raw table itself (%s) instead of going through insert: what happens to a key that is "
+                   "already present then depends on this code, not on insert (which keeps the stored key)" % (b.path, "; ".join(bad[:4])))
+        elif not feeds:
+            R.viol("%s:no-insert" % b.path, b.where(Loc(0, 0)), "%s does not hand its elements to insert or to another bulk insertion" % b.path)
+    R.floor(4, "bulk insertions")
     return R
